@@ -1,77 +1,298 @@
-(* Textual paths: the ancestors the repaired code scans (path[:i] with path[i] = '/' or '[') are exactly the
-   paths the given one is beneath in the sense of utils.IsPathBelow. *)
-From Coq Require Import List NArith Bool Lia.
-From OC Require Import Base.Bytes Model.Merge Proofs.MergeProofs.
+(* Proofs about the path codec model (property C16), part 1: findUnescaped (fast track = loop),
+   parseKey / parseElement on rendered text, the tokenizer on rendered text, SplitPath on rendered
+   paths. *)
+From Coq Require Import List NArith Bool Lia Permutation.
+From OC Require Import Base.Bytes Model.Path.
 Import ListNotations.
 Open Scope N_scope.
 
-Definition proper (p : str) : Prop := p <> [] /\ p <> [c_slash].
-
-Lemma bprefixes_spec rest : forall acc a,
-  In a (bprefixes acc rest) <-> exists r1 c r2, rest = r1 ++ c :: r2 /\ is_boundary c = true /\ a = acc ++ r1.
+(* ------------------------------------------------------------ small facts -- *)
+Lemma has_false c s : has c s = false <-> ~ In c s.
 Proof.
-  induction rest as [|x rest IH]; intros acc a; cbn.
-  - split; [intros [] | intros [r1 [c [r2 [H _]]]]; destruct r1; discriminate].
-  - rewrite in_app_iff, IH. split.
-    + intros [H|[r1 [c [r2 [E [B A]]]]]].
-      * destruct (is_boundary x) eqn:Bx; [|destruct H].
-        destruct H as [<-|[]]. exists [], x, rest. rewrite app_nil_r. auto.
-      * exists (x :: r1), c, r2. subst. rewrite <- app_assoc. auto.
-    + intros [r1 [c [r2 [E [B A]]]]]. destruct r1 as [|y r1]; cbn in E; injection E as -> ->.
-      * left. rewrite B. left. rewrite app_nil_r in A. auto.
-      * right. exists r1, c, r2. rewrite <- app_assoc. auto.
+  unfold has. induction s as [|x s IH]; cbn; [tauto|].
+  rewrite orb_false_iff, IH, N.eqb_neq. intuition congruence.
 Qed.
 
-Lemma strip_prefix_some a : forall x r, strip_prefix a x = Some r -> x = a ++ r.
+Lemma has_cons c x s : has c (x :: s) = (x =? c) || has c s.
+Proof. reflexivity. Qed.
+
+Lemma has_app c a b : has c (a ++ b) = has c a || has c b.
+Proof. unfold has. apply existsb_app. Qed.
+
+Lemma forallb_has (P : N -> bool) c s : forallb P s = true -> P c = false -> has c s = false.
 Proof.
-  induction a as [|c a IH]; intros x r; cbn.
-  - intros [= ->]. reflexivity.
-  - destruct x as [|y x]; [discriminate|]. destruct (c =? y) eqn:E; [|discriminate].
-    apply N.eqb_eq in E. subst y. intros H. f_equal. apply IH. exact H.
+  intros HF HP. apply has_false. intros HIn.
+  rewrite forallb_forall in HF. specialize (HF _ HIn). congruence.
 Qed.
 
-Lemma strip_prefix_app' a r : strip_prefix a (a ++ r) = Some r.
-Proof. induction a as [|x a IH]; cbn; [reflexivity|]. rewrite N.eqb_refl. exact IH. Qed.
+Lemma is_empty_false s : is_empty s = false <-> s <> [].
+Proof. destruct s; cbn; split; congruence. Qed.
 
-Lemma in_ancestors_iff x a :
-  In a (boundary_ancestors x) <-> a <> [] /\ exists c r, x = a ++ c :: r /\ is_boundary c = true.
+Lemma ltb_str_asym a b : ltb_str a b = true -> ltb_str b a = false.
 Proof.
-  unfold boundary_ancestors. destruct x as [|c0 rest].
-  - split; [intros [] | intros [_ [c [r [H _]]]]; destruct a; discriminate].
-  - rewrite <- in_rev, bprefixes_spec. split.
-    + intros [r1 [c [r2 [E [B A]]]]]. subst. split; [discriminate|]. exists c, r2. auto.
-    + intros [NE [c [r [E B]]]]. destruct a as [|a0 a]; [congruence|]. cbn in E. injection E as -> ->.
-      exists a, c, r. auto.
+  intros H. destruct (ltb_str b a) eqn:E; [|reflexivity].
+  pose proof (ltb_str_trans _ _ _ H E) as T. rewrite ltb_str_irrefl in T. discriminate.
 Qed.
 
-Lemma below_iff x a : proper a ->
-  (is_path_below x a = true <-> exists c r, x = a ++ c :: r /\ is_boundary c = true).
+Lemma ltb_str_neq a b : ltb_str a b = true -> eqb_str b a = false.
 Proof.
-  intros [H1 H2]. unfold is_path_below.
-  destruct (eqb_str a []) eqn:E1; [apply eqb_str_eq in E1; contradiction|].
-  destruct (eqb_str a [c_slash]) eqn:E2; [apply eqb_str_eq in E2; contradiction|].
-  cbn [orb]. split.
-  - destruct (strip_prefix a x) as [[|c r]|] eqn:S; try discriminate.
-    intros B. exists c, r. split; [apply strip_prefix_some; exact S | exact B].
-  - intros [c [r [-> B]]]. rewrite strip_prefix_app'. exact B.
+  intros H. apply eqb_str_neq. intros ->. rewrite ltb_str_irrefl in H. discriminate.
 Qed.
 
-Lemma ancestor_below x a : proper a -> (In a (boundary_ancestors x) <-> is_path_below x a = true).
+(* --------------------------------- findUnescaped: fast track = the loop -- *)
+Lemma find_fast_slow c s : has c_bslash s = false -> find_slow c s = find_fast c s.
 Proof.
-  intros P. rewrite in_ancestors_iff, (below_iff x a P). destruct P as [P1 P2]. tauto.
+  induction s as [|ch s IH]; intros H; [reflexivity|].
+  rewrite has_cons in H. apply orb_false_iff in H as [H1 H2].
+  cbn [find_slow find_fast]. destruct (ch =? c); [reflexivity|].
+  rewrite H1, (IH H2). reflexivity.
 Qed.
 
-Lemma below_trans p t d : proper t -> proper d ->
-  is_path_below p t = true -> is_path_below t d = true -> is_path_below p d = true.
+Lemma find_unescaped_slow c s : find_unescaped c s = find_slow c s.
 Proof.
-  intros Pt Pd H1 H2. apply (below_iff p t Pt) in H1. apply (below_iff t d Pd) in H2.
-  destruct H1 as [c [r [-> B]]]. destruct H2 as [c' [r' [-> B']]].
-  apply (below_iff _ d Pd). exists c', (r' ++ c :: r). rewrite <- app_assoc. cbn. auto.
+  unfold find_unescaped. destruct (has c_bslash s) eqn:E; [reflexivity|].
+  symmetry. apply find_fast_slow. exact E.
 Qed.
 
-Lemma below_irrefl p : proper p -> is_path_below p p = false.
+(* the loop on text produced by writeSafeString: the escaped text is read back verbatim *)
+Lemma find_slow_safe c e s r :
+  c <> c_bslash -> (c = e \/ has c s = false) ->
+  find_slow c (safe e s ++ r) = (s ++ fst (find_slow c r), snd (find_slow c r)).
 Proof.
-  intros P. destruct (is_path_below p p) eqn:E; [|reflexivity].
-  apply (below_iff p p P) in E. destruct E as [c [r [E _]]].
-  exfalso. apply (f_equal (@length N)) in E. rewrite app_length in E. cbn in E. lia.
+  intros Hc. induction s as [|x s IH]; intros Hs.
+  - cbn. destruct (find_slow c r); reflexivity.
+  - assert (Hs' : c = e \/ has c s = false).
+    { destruct Hs as [Hs|Hs]; [left; exact Hs|right]. rewrite has_cons in Hs. apply orb_false_iff in Hs. tauto. }
+    specialize (IH Hs').
+    cbn [safe]. destruct ((x =? e) || (x =? c_bslash)) eqn:E.
+    + cbn [app find_slow].
+      assert (Hb : c_bslash =? c = false) by (apply N.eqb_neq; congruence).
+      rewrite Hb, N.eqb_refl. rewrite IH. reflexivity.
+    + apply orb_false_iff in E as [E1 E2].
+      cbn [app find_slow].
+      assert (Hx : x =? c = false).
+      { destruct Hs as [->|Hs]; [exact E1|]. rewrite has_cons in Hs. apply orb_false_iff in Hs. tauto. }
+      rewrite Hx, E2, IH. reflexivity.
+Qed.
+
+(* the loop on raw text without the searched byte and without backslash *)
+Lemma find_slow_plain c k r :
+  has c k = false -> has c_bslash k = false -> find_slow c (k ++ c :: r) = (k, Some r).
+Proof.
+  induction k as [|x k IH]; intros H1 H2.
+  - cbn. rewrite N.eqb_refl. reflexivity.
+  - rewrite has_cons in H1, H2. apply orb_false_iff in H1 as [H1 H1'], H2 as [H2 H2'].
+    cbn [app find_slow]. rewrite H1, H2, (IH H1' H2'). reflexivity.
+Qed.
+
+(* ------------------------------------------------- parseKey on a rendered key -- *)
+Lemma key_ok_parts k v :
+  key_ok (k, v) = true ->
+  k <> [] /\ has c_eq k = false /\ has c_bslash k = false /\ v <> [] /\ key_unsplit k v = true.
+Proof.
+  unfold key_ok; cbn [fst snd]. rewrite !andb_true_iff, !negb_true_iff, !is_empty_false. tauto.
+Qed.
+
+Lemma parse_key_render k v next :
+  key_ok (k, v) = true -> parse_key (render_key (k, v) ++ next) = ROk (k, v, next).
+Proof.
+  intros H. apply key_ok_parts in H as (Hk & Heq & Hbs & Hv & _).
+  unfold render_key; cbn [fst snd].
+  replace ((c_lbr :: k ++ c_eq :: safe c_rbr v ++ [c_rbr]) ++ next)
+    with (c_lbr :: k ++ c_eq :: (safe c_rbr v ++ c_rbr :: next))
+    by (cbn; f_equal; rewrite <- !app_assoc; cbn; rewrite <- app_assoc; reflexivity).
+  unfold parse_key. rewrite N.eqb_refl. cbn [negb].
+  rewrite find_unescaped_slow, (find_slow_plain _ _ _ Heq Hbs).
+  destruct k as [|k0 k']; [congruence|]. cbn [is_empty].
+  rewrite find_unescaped_slow, find_slow_safe by (try discriminate; left; reflexivity).
+  cbn [find_slow]. rewrite N.eqb_refl. cbn [fst snd]. rewrite app_nil_r.
+  destruct v as [|v0 v']; [congruence|]. reflexivity.
+Qed.
+
+(* ------------------------------------- the key loop on a rendered key list -- *)
+Definition put_all (ks acc : kmap) : kmap := fold_left (fun m kv => map_put (fst kv) (snd kv) m) ks acc.
+
+Lemma render_key_length kv : (1 <= List.length (render_key kv))%nat.
+Proof. unfold render_key. cbn. lia. Qed.
+
+Lemma parse_keys_render ks : forall acc fuel,
+  forallb key_ok ks = true ->
+  (List.length (concat (map render_key ks)) <= fuel)%nat ->
+  parse_keys fuel (concat (map render_key ks)) acc = ROk (put_all ks acc).
+Proof.
+  induction ks as [|[k v] ks IH]; intros acc fuel Hok Hfuel.
+  - cbn. destruct fuel; reflexivity.
+  - cbn [forallb] in Hok. apply andb_true_iff in Hok as [Hkv Hok].
+    cbn [map concat] in *. rewrite app_length in Hfuel.
+    pose proof (render_key_length (k, v)) as Hlen.
+    destruct fuel as [|f]; [lia|].
+    assert (Hpk := parse_key_render k v (concat (map render_key ks)) Hkv).
+    remember (render_key (k, v) ++ concat (map render_key ks)) as txt eqn:Etxt.
+    destruct txt as [|t0 txt'].
+    { unfold render_key in Etxt. cbn in Etxt. discriminate. }
+    cbn [parse_keys]. rewrite Hpk. cbn [put_all fold_left fst snd].
+    apply IH; [exact Hok|lia].
+Qed.
+
+(* inserting strictly ascending keys appends them *)
+Lemma map_put_last k v m :
+  (forall kv, In kv m -> ltb_str (fst kv) k = true) -> map_put k v m = m ++ [(k, v)].
+Proof.
+  induction m as [|[k' v'] m IH]; intros H; [reflexivity|].
+  cbn [map_put]. assert (Hk : ltb_str k' k = true) by (apply (H (k', v')); left; reflexivity).
+  rewrite (ltb_str_neq _ _ Hk), (ltb_str_asym _ _ Hk). cbn. f_equal.
+  apply IH. intros kv Hin. apply H. right; exact Hin.
+Qed.
+
+Lemma keys_sorted_cons kv ks :
+  keys_sorted (kv :: ks) = true ->
+  keys_sorted ks = true /\ forall kv', In kv' ks -> ltb_str (fst kv) (fst kv') = true.
+Proof.
+  revert kv. induction ks as [|kv2 ks IH]; intros kv H.
+  - split; [reflexivity|intros ? []].
+  - cbn [keys_sorted] in H. apply andb_true_iff in H as [H1 H2].
+    split; [exact H2|]. intros kv' [<-|Hin]; [exact H1|].
+    destruct (IH _ H2) as [_ H3]. eapply ltb_str_trans; [exact H1|apply H3; exact Hin].
+Qed.
+
+Lemma put_all_sorted ks : forall acc,
+  keys_sorted ks = true ->
+  (forall a b, In a acc -> In b ks -> ltb_str (fst a) (fst b) = true) ->
+  put_all ks acc = acc ++ ks.
+Proof.
+  induction ks as [|[k v] ks IH]; intros acc Hs Hlt.
+  - cbn. rewrite app_nil_r. reflexivity.
+  - cbn [put_all fold_left fst snd]. destruct (keys_sorted_cons _ _ Hs) as [Hs' Hk].
+    rewrite map_put_last by (intros kv Hin; apply (Hlt kv (k, v)); [exact Hin|left; reflexivity]).
+    change (fold_left _ ks (acc ++ [(k, v)])) with (put_all ks (acc ++ [(k, v)])).
+    rewrite IH; [rewrite <- app_assoc; reflexivity|exact Hs'|].
+    intros a b Ha Hb. apply in_app_or in Ha as [Ha|[<-|[]]].
+    + apply Hlt; [exact Ha|right; exact Hb].
+    + apply Hk. exact Hb.
+Qed.
+
+(* sort.Strings on already ascending key names changes nothing *)
+Lemma isort_sorted ks : keys_sorted ks = true -> isort key_leb ks = ks.
+Proof.
+  induction ks as [|a ks IH]; intros H; [reflexivity|].
+  destruct (keys_sorted_cons _ _ H) as [Hs Hk].
+  cbn [isort]. rewrite (IH Hs).
+  destruct ks as [|b t]; [reflexivity|].
+  cbn [insert_sorted]. unfold key_leb, leb_str.
+  rewrite (ltb_str_asym _ _ (Hk b (or_introl eq_refl))). reflexivity.
+Qed.
+
+Lemma render_keys_sorted ks : keys_sorted ks = true -> render_keys ks = concat (map render_key ks).
+Proof. intros H. unfold render_keys. rewrite (isort_sorted _ H). reflexivity. Qed.
+
+(* --------------------------------------- parseElement on a rendered element -- *)
+Lemma elem_ok_parts last e :
+  elem_ok last e = true ->
+  has c_lbr (e_name e) = false /\ forallb key_ok (e_keys e) = true /\ keys_sorted (e_keys e) = true /\
+  (e_name e <> [] \/ (last = false /\ e_keys e = [])).
+Proof.
+  unfold elem_ok. rewrite !andb_true_iff, orb_true_iff, !negb_true_iff, andb_true_iff, negb_true_iff, is_empty_false.
+  intros [[[H1 H2] H3] H4]. repeat split; try assumption.
+  destruct H4 as [H4|[H4 H5]]; [left; exact H4|right]. split; [exact H4|].
+  unfold no_keys in H5. destruct (e_keys e); [reflexivity|discriminate].
+Qed.
+
+Lemma elem_ok_weaken e : elem_ok true e = true -> elem_ok false e = true.
+Proof.
+  unfold elem_ok. rewrite !andb_true_iff, !orb_true_iff. cbn [negb andb].
+  intros [H1 [H2|H2]]; [split; [exact H1|left; exact H2]|discriminate].
+Qed.
+
+Lemma parse_element_render last e : elem_ok last e = true -> parse_element (render e) = ROk e.
+Proof.
+  intros H. apply elem_ok_parts in H as (Hn & Hk & Hs & Hne).
+  destruct e as [name ks]; cbn [e_name e_keys] in *.
+  unfold parse_element, render; cbn [e_name e_keys].
+  rewrite find_unescaped_slow, find_slow_safe by (try discriminate; right; exact Hn).
+  rewrite (render_keys_sorted _ Hs).
+  destruct ks as [|[k v] ks].
+  - cbn. rewrite app_nil_r. reflexivity.
+  - assert (Hname : name <> []) by (destruct Hne as [Hne|[_ Hne]]; [exact Hne|discriminate]).
+    cbn [map concat]. unfold render_key at 1. cbn [fst snd app find_slow].
+    rewrite N.eqb_refl. cbn [fst snd]. rewrite app_nil_r.
+    destruct name as [|n0 name']; [congruence|]. cbn [is_empty].
+    set (rest := (k ++ c_eq :: safe c_rbr v ++ [c_rbr]) ++ concat (map render_key ks)).
+    assert (Etxt : c_lbr :: rest = concat (map render_key ((k, v) :: ks))) by reflexivity.
+    rewrite Etxt, parse_keys_render; [|exact Hk|lia].
+    rewrite put_all_sorted; [reflexivity|exact Hs|intros ? ? []].
+Qed.
+
+Lemma parse_gnmi_elements_render p :
+  Forall (fun e => elem_ok false e = true) p -> parse_gnmi_elements (map render p) = ROk p.
+Proof.
+  induction 1 as [|e p He _ IH]; [reflexivity|].
+  cbn [map parse_gnmi_elements]. rewrite (parse_element_render _ _ He), IH. reflexivity.
+Qed.
+
+(* ----------------------------------------------- the tokenizer on rendered text -- *)
+Fixpoint run (st : bool * bool) (s : str) : option (bool * bool) :=
+  match s with
+  | [] => Some st
+  | c :: s' => match tok_step (fst st) (snd st) c with None => None | Some st' => run st' s' end
+  end.
+
+Lemma run_app st a b : run st (a ++ b) = match run st a with Some st' => run st' b | None => None end.
+Proof.
+  revert st. induction a as [|c a IH]; intros st; [reflexivity|].
+  cbn [app run]. destruct (tok_step (fst st) (snd st) c); [apply IH|reflexivity].
+Qed.
+
+Lemma next_token_run s : forall inb esc st' r,
+  run (inb, esc) s = Some st' ->
+  next_token inb esc (s ++ r) = (s ++ fst (next_token (fst st') (snd st') r), snd (next_token (fst st') (snd st') r)).
+Proof.
+  induction s as [|c s IH]; intros inb esc st' r H.
+  - cbn in H. injection H as <-. cbn. destruct (next_token inb esc r); reflexivity.
+  - cbn [run fst snd] in H. cbn [app next_token].
+    destruct (tok_step inb esc c) as [[inb' esc']|]; [|discriminate].
+    rewrite (IH _ _ _ r H). reflexivity.
+Qed.
+
+(* element names: '/' and '\' are written escaped, '[' must not occur *)
+Lemma run_safe_name name :
+  has c_lbr name = false -> run (false, false) (safe c_slash name) = Some (false, false).
+Proof.
+  induction name as [|x name IH]; intros H; [reflexivity|].
+  rewrite has_cons in H. apply orb_false_iff in H as [Hx H]. specialize (IH H).
+  cbn [safe]. destruct (x =? c_slash) eqn:E1.
+  - apply N.eqb_eq in E1; subst x. cbn. exact IH.
+  - destruct (x =? c_bslash) eqn:E2.
+    + apply N.eqb_eq in E2; subst x. cbn. exact IH.
+    + cbn [orb run fst snd]. unfold tok_step. rewrite Hx, E2, E1.
+      destruct (x =? c_rbr); exact IH.
+Qed.
+
+(* key names (raw, no backslash) and key values (']' and '\' escaped): the bracket state is scan_open's *)
+Lemma run_scan_key k : forall inb b,
+  has c_bslash k = false -> scan_open true inb k = Some b -> run (inb, false) k = Some (b, false).
+Proof.
+  induction k as [|x k IH]; intros inb b Hb Hs.
+  - cbn in *. congruence.
+  - rewrite has_cons in Hb. apply orb_false_iff in Hb as [Hx Hb].
+    cbn [scan_open] in Hs. cbn [run fst snd]. unfold tok_step. rewrite Hx.
+    destruct (x =? c_lbr); [apply IH; assumption|].
+    destruct (x =? c_rbr); [apply IH; assumption|].
+    destruct (x =? c_slash); [|apply IH; assumption].
+    destruct inb; [cbn; apply IH; assumption|discriminate].
+Qed.
+
+Lemma run_scan_val v : forall inb b,
+  scan_open false inb v = Some b -> run (inb, false) (safe c_rbr v) = Some (b, false).
+Proof.
+  induction v as [|x v IH]; intros inb b Hs.
+  - cbn in *. congruence.
+  - cbn [scan_open] in Hs. cbn [safe].
+    destruct (x =? c_rbr) eqn:E1.
+    + apply N.eqb_eq in E1; subst x. cbn in Hs. cbn. apply IH. exact Hs.
+    + destruct (x =? c_bslash) eqn:E2.
+      * apply N.eqb_eq in E2; subst x. cbn in Hs. cbn. apply IH. exact Hs.
+      * cbn [orb run fst snd]. unfold tok_step. rewrite E1, E2.
+        destruct (x =? c_lbr); [apply IH; assumption|].
+        destruct (x =? c_slash); [|apply IH; assumption].
+        destruct inb; [cbn; apply IH; assumption|discriminate].
 Qed.
